@@ -183,6 +183,10 @@ def run_hyp_unit(unit, tier, verif_seed, shard, nshards, kf):
     found = []          # list of Failure (shrunk), distinct keys
     muted = set()
     n_ex = max(1, unit.n_examples(tier) // nshards)
+    if n_ex <= 8 and shard > 0:
+        # Hypothesis always starts with the simplest example of the strategy: identical in every shard. Where a shard
+        # only runs a handful of cases, that one is run on top (shard 0 keeps it within its count)
+        n_ex += 1
     for attempt in range(5):
         state = {"target": None, "last": None, "t0": None, "others": set()}
 
